@@ -99,7 +99,7 @@ def bindRun (ps : List Param) (pos : List RVal) (kw : List (String × RVal)) : N
 def rtValue (results : List RVal) (env : Env) (e : RtExpr) : RVal :=
   let rs := e.rs.filterMap (fun i => results[i]?)
   let ps := e.ps.filterMap (fun n => lookupKw n env)
-  .str ("rt(" ++ joinWith "," ((rs ++ ps).map showVal) ++ ")")
+  .str ("rt(" ++ joinWith "," ((rs ++ ps ++ e.lits.map RVal.str).map showVal) ++ ")")
 
 def argValue (results : List RVal) (env : Env) : AstArg → Option RtExpr → RVal
   | .const v, _ => .py v
